@@ -8,7 +8,6 @@ import (
 	"encoding/binary"
 	"fmt"
 	"math"
-	"sort"
 
 	"github.com/skx/evalfilter/v2/ast"
 	"github.com/skx/evalfilter/v2/code"
@@ -98,28 +97,12 @@ func (e *Eval) compile(node ast.Node) error {
 		e.emit(code.OpArray, len(node.Elements))
 
 	case *ast.HashLiteral:
-		keys := []ast.Expression{}
 
-		// get the keys
-		for k := range node.Pairs {
-			keys = append(keys, k)
-		}
-
-		// sort them
-		sort.Slice(keys, func(i, j int) bool {
-			ki, kj := keys[i].String(), keys[j].String()
-			if ki != kj {
-				return ki < kj
-			}
-
-			// The same key given twice: order the pairs by
-			// their values, so that we always compile the
-			// same program.
-			return node.Pairs[keys[i]].String() < node.Pairs[keys[j]].String()
-		})
-
-		// for each key + value compile them
-		for _, k := range keys {
+		// Compile each key + value, in the order in which they
+		// were written, so that the same script always gives the
+		// same program.  (The machine fills the hash from the last
+		// pair to the first: a key given twice keeps its first value.)
+		for _, k := range node.Keys {
 			err := e.compile(k)
 			if err != nil {
 				return err
@@ -131,7 +114,7 @@ func (e *Eval) compile(node ast.Node) error {
 		}
 
 		// Now the number of key+values we've saved
-		e.emit(code.OpHash, len(node.Pairs)*2)
+		e.emit(code.OpHash, len(node.Keys)*2)
 
 	case *ast.ReturnStatement:
 		err := e.compile(node.ReturnValue)
